@@ -124,13 +124,18 @@ def wynn(ctx):
              'per column (regular branch), paired with steps[i+2]; _extrapolate applies it only for more than two rows', 3)
     lim = ctx.repo.module('limits')
     I, models = make13(ctx.repo)
-    L = I.get_global('limits', '_Limit')
+    # the Wynn stage: the one function of limits.py that applies dea3 (found by that, whatever it is called or wherever it lives)
+    from ..srcmodel import functions_calling
+    cands = functions_calling(lim, ('dea3',))
+    if len(cands) != 1:
+        raise AnalysisError('anchor vanished: the function of limits.py that applies dea3 (candidates: %s)' % [c[0] for c in cands])
+    wynn_fn = I.closure_for(lim, cands[0][1], cands[0][2])
     for rows, cols in ((3, 1), (5, 2), (4, 3)):
         der = Arr((rows, cols), [Poly.sym('d%d_%d' % (i, c)) for i in range(rows) for c in range(cols)])
         steps = Arr((rows, cols), [Poly.sym('h%d_%d' % (i, c)) for i in range(rows) for c in range(cols)])
         problems = []
         try:
-            out, err, st = I.getattr(L, '_wynn_extrapolate')(der, steps)
+            out, err, st = wynn_fn(der, steps)
             if out.shape != (rows - 2, cols) or st.shape != (rows - 2, cols) or err.shape != (rows - 2, cols):
                 problems.append('shapes %s %s %s' % (out.shape, err.shape, st.shape))
             else:
